@@ -147,7 +147,7 @@ def rule_inf1(A: Analysis, rep):
         return
     pid, rc = names.pop()
     # the entry that is looked up / removed / returned is the one of a pid that IS registered:
-    look = [n for n in g.nodes if n.kind == "stmt" and isinstance(n.ast, ast.Assign) and norm(n.ast.value) == "self._processes[%s]" % pid]
+    look = [n for n in g.nodes if n.kind == "stmt" and isinstance(n.ast, ast.Assign) and norm(n.ast.value) in ("self._processes[%s]" % pid, "self._processes.pop(%s)" % pid)]
     ok = len(look) == 1
     if ok:
         gs = A.path_guards(g, g.entry, look[0], w, inline_preds=True)
@@ -162,7 +162,8 @@ def rule_inf1(A: Analysis, rep):
     ok = len(tup) == 1
     if ok:
         hv, tv = [norm(x) for x in tup[0].targets[0].elts]
-        dels_ = [n for n in g.nodes if n.kind == "stmt" and norm(n.ast) == "del self._processes[%s]" % pid]
+        dels_ = [n for n in g.nodes if n.kind == "stmt" and (norm(n.ast) == "del self._processes[%s]" % pid or
+                                                             (isinstance(n.ast, ast.Assign) and norm(n.ast.value) == "self._processes.pop(%s)" % pid))]
         sets_ = [n for n in g.nodes if n.kind == "stmt" and norm(n.ast) == "%s.returncode = %s" % (hv, rc)]
         r = [n for n in g.nodes if n.kind == "stmt" and isinstance(n.ast, ast.Return) and norm(n.ast.value) in ("(%s, %s)" % (hv, tv),)]
         ok = len(dels_) == 1 and len(sets_) == 1 and len(r) == 1 and g.all_paths_pass(look[0], r[0], dels_, skip_labels=skip) and g.all_paths_pass(look[0], r[0], sets_, skip_labels=skip)
